@@ -211,6 +211,7 @@ static void worklist_append(WorkList *list, WorkItem item) {
  * ============================================================================ */
 static void emit_indent_item(WorkList *list, int level);
 static void emit_formatted(WorkList *list, const char *fmt, ...);
+static void emit_float_literal(WorkList *list, double v);
 
 /* ============================================================================
  * SCOPE TRACKING - Track GC-managed variables for automatic cleanup
@@ -395,6 +396,18 @@ static void emit_formatted(WorkList *list, const char *fmt, ...) {
         exit(1);
     }
     worklist_append(list, item);
+}
+
+/* A double as a C literal of type double that reads back to the same value: all 17 significant
+ * digits, and always a '.' or exponent (a bare "10" would be an int: integer division, and a
+ * wrong type in variadic calls). */
+static void emit_float_literal(WorkList *list, double v) {
+    char buf[64];
+    snprintf(buf, sizeof(buf), "%.17g", v);
+    if (!strpbrk(buf, ".eEn")) {       /* no fraction, no exponent, not inf/nan */
+        strncat(buf, ".0", sizeof(buf) - strlen(buf) - 1);
+    }
+    emit_formatted(list, "%s", buf);
 }
 
 static void emit_indent_item(WorkList *list, int level) {
@@ -703,11 +716,7 @@ static void build_expr(WorkList *list, ASTNode *expr, Environment *env) {
             break;
             
         case AST_FLOAT:
-            if (expr->as.float_val == (double)(int64_t)expr->as.float_val) {
-                emit_formatted(list, "%.1f", expr->as.float_val);
-            } else {
-                emit_formatted(list, "%g", expr->as.float_val);
-            }
+            emit_float_literal(list, expr->as.float_val);
             break;
             
         case AST_STRING: {
@@ -756,7 +765,7 @@ static void build_expr(WorkList *list, ASTNode *expr, Environment *env) {
                     }
                     return;
                 } else if (sym->value.type == VAL_FLOAT) {
-                    emit_formatted(list, "%g", sym->value.as.float_val);
+                    emit_float_literal(list, sym->value.as.float_val);
                     return;
                 } else if (sym->value.type == VAL_BOOL) {
                     emit_literal(list, sym->value.as.bool_val ? "true" : "false");
